@@ -344,6 +344,10 @@ class EdtInterp(ResultInterp):
                 return out
             return DArr(dtype, ex)
 
+        if name in ("numpy.subtract",) and len(a) >= 2 and isinstance(a[0], DArr) and isinstance(a[1], DArr):
+            order = ["i16", "i32", "i64", "f32", "f64"]
+            dt_ = a[0].dtype if (a[0].dtype in order and a[1].dtype in order and order.index(a[0].dtype) >= order.index(a[1].dtype)) else a[1].dtype
+            return emit(a[2] if len(a) > 2 else kwargs.get("out"), dt_, f"{a[0].expr}-{a[1].expr}")
         if name in ("numpy.square",) and a and isinstance(a[0], DArr):
             return emit(a[1] if len(a) > 1 else kwargs.get("out"), a[0].dtype, self._square(a[0], node))
         if name in ("numpy.power",) and len(a) >= 2 and isinstance(a[0], DArr) and a[1] == 2:
